@@ -52,6 +52,8 @@ structure Function where
   isContext : Bool
   args : List Arg
   recvPtr : Bool := false
+  synopsis : String := ""       -- doc.Synopsis of the declaration (recorded; only the generated text shows it)
+  comment : String := ""        -- the whole doc comment, as one line
   deriving DecidableEq, Repr
 
 /-- Function.TargetName -/
@@ -76,6 +78,7 @@ structure PkgInfo where
   imports : List Import := []
   defaultFunc : Option Function := none
   aliases : List (String × Function) := []
+  description : String := ""     -- the package comment
   deriving Repr
 
 inductive BuildErr where
